@@ -119,7 +119,7 @@ fn check_inner(c: &Case, exdev_at: Option<usize>) -> Option<(String, String)> {
         }
     };
     if let Some(k) = exdev_at {
-        crate::engine::fsfault::begin(&sb.dir, crate::engine::fsfault::Plan { fail: vec![(k, libc::EXDEV)], snapshots: false, kinds: vec!["rename"] });
+        crate::engine::fsfault::begin(&sb.dir, crate::engine::fsfault::Plan { fail: vec![(k, libc::EXDEV)], snapshots: false, kinds: vec!["rename"], short: vec![] });
         crate::engine::fsfault::arm();
     }
     for k in 0..c.rolls {
